@@ -682,6 +682,8 @@ Proof.
   - eapply add_part_good; eassumption.
   - eapply add_vote_good; eassumption.
   - eapply handle_timeout_good; eassumption.
+  - destruct (height =? cs_height s); injection Eq as <- <-; [|apply good_nil].
+    apply rgood_good, quiet_rgood. unfold Quiet. cs. repeat split; reflexivity.
 Qed.
 
 (* a whole run: the keys of everything signed, in order, strictly increase *)
